@@ -79,6 +79,9 @@ ATTRS = ["", " +intent(in)", " +intent(out)", " +rank(1)", " +dimension(n)", " +
 
 
 def gen_var(r, name="v"):
+    if r.random() < 0.07:
+        # void only behind a pointer (void *ctx, const void *, void **)
+        return "%svoid %s%s" % (r.choice(["", "const "]), r.choice(["*", "**", "* const "]), name)
     base = r.choice(NATIVE if r.random() < 0.55 else (PERMUTED if r.random() < 0.25 else NAMED))
     pre = r.choice(CVS) if r.random() < 0.5 else ""
     post = r.choice(POSTCV) if not pre and r.random() < 0.25 else ""
